@@ -41,9 +41,19 @@ pub fn record_quantile(path: &str, seed: u64, n: usize, rep: &mut Report) {
     // p = k/32 (exact desired positions: the position skeleton is validated by TLC) and, encoded
     // as 1000 + k, p = k/10 (not representable: only bookkeeping, invariants and the serde twin)
     let p32s = [0u32, 1, 4, 8, 16, 24, 31, 32, 1001, 1003, 1007, 1009];
-    for bad in [-0.1, 1.0000000000000002, f64::NAN, f64::INFINITY, f64::NEG_INFINITY, 2.0, -1e-300] {
+    for bad in [-0.1, 1.0000000000000002, f64::NAN, f64::INFINITY, f64::NEG_INFINITY, 2.0, -1e-300, -5e-324, -1e-17, -2.7755575615628914e-17, -f64::MIN_POSITIVE] {
         let panicked = std::panic::catch_unwind(|| Quantile::new(bad)).is_err();
         writeln!(out, "{}", json!({"op": "new_invalid", "p": format!("{bad:e}"), "panicked": panicked})).unwrap();
+        rep.evaluations += 1;
+    }
+    for good in [0.0, 1.0, 0.5, 0.1, 5e-324, 1.5e-323, f64::from_bits(0x0010_0000_0000_0001), f64::MIN_POSITIVE, 1e-300, 1.0 - 1.1102230246251565e-16, 0.9999] {
+        let r = std::panic::catch_unwind(|| {
+            let q = Quantile::new(good);
+            (q.p().to_bits() == good.to_bits(), q.len(), q.is_empty())
+        });
+        let panicked = r.is_err();
+        let (pe, l, e) = r.unwrap_or((false, 0, false));
+        writeln!(out, "{}", json!({"op": "new_valid", "p": format!("{good:e}"), "panicked": panicked, "p_exact": pe, "len": l, "empty": e})).unwrap();
         rep.evaluations += 1;
     }
     let all = streams(&mut rng, n);
@@ -437,7 +447,8 @@ pub fn record_minmax(path: &str, seed: u64, n: usize, with_serde: bool, rep: &mu
                 } else if c < 62 {
                     // a batch through FromIterator (fresh) or Extend (Min; Max has no Extend impl,
                     // its batch goes through add)
-                    let len = rng.random_range(0..8);
+                    // mostly short, now and then long enough for a blocked / unrolled loop to wrap around
+                    let len = if c % 5 == 0 { rng.random_range(8..40) } else { rng.random_range(0..8) };
                     let vals: Vec<(f64, i64, bool)> = (0..len).map(|_| mm_value(&mut rng, regime)).collect();
                     let xs: Vec<f64> = vals.iter().map(|v| v.0).collect();
                     let fresh = c % 2 == 0;
@@ -452,6 +463,14 @@ pub fn record_minmax(path: &str, seed: u64, n: usize, with_serde: bool, rep: &mu
                         } else {
                             (xs.clone().into_par_iter().with_max_len(1).collect::<Min>(), xs.clone().into_par_iter().with_max_len(1).collect::<Max>())
                         }
+                    } else if fresh && c % 7 == 1 {
+                        // through iterators that do not know their length (a filter that keeps everything,
+                        // chunks flattened again): the meaning is the same for loop
+                        if by_ref {
+                            (xs.iter().filter(|x| x == x || x != x).collect::<Min>(), xs.chunks(2).flatten().collect::<Max>())
+                        } else {
+                            (xs.chunks(2).flatten().copied().collect::<Min>(), xs.iter().copied().filter(|x| x == x || x != x).collect::<Max>())
+                        }
                     } else if fresh {
                         if by_ref {
                             (xs.iter().collect::<Min>(), xs.iter().collect::<Max>())
@@ -460,8 +479,12 @@ pub fn record_minmax(path: &str, seed: u64, n: usize, with_serde: bool, rep: &mu
                         }
                     } else {
                         let mut o = objs[i].clone().unwrap();
-                        if by_ref {
+                        if by_ref && c % 7 == 2 {
+                            o.0.extend(xs.chunks(3).flatten());
+                        } else if by_ref {
                             o.0.extend(xs.iter());
+                        } else if c % 7 == 3 {
+                            o.0.extend(xs.iter().copied().filter(|x| x == x || x != x));
                         } else {
                             o.0.extend(xs.iter().copied());
                         }
